@@ -133,6 +133,14 @@ def deep_inputs():
         out.append(('two-idents-%d' % n, 'int %s; int %s;' % ('b' * (n + 44), 'a' * n)))
         out.append(('macro-name-%d' % n, '#define %s 1\nint x = %s;' % ('m' * n, 'm' * n)))
         out.append(('strarg-exact-%d' % n, '#define S(x) #x\nchar s[] = S(%s);' % ('y' * (n - 3))))
+        if n <= 4097:
+            # one append larger than the whole buffer, at every offset around the capacity (the buffer already holds the opening quote, or earlier tokens)
+            for d in (-2, -1, 0, 1, 2):
+                out.append(('strarg-ident-%d' % (n + d), '#define S(x) #x\nchar s[] = S(%s);' % ('y' * (n + d))))
+                out.append(('strarg-number-%d' % (n + d), '#define S(x) #x\nchar s[] = S(%s);' % ('7' * (n + d))))
+                out.append(('strarg-string-%d' % (n + d), '#define S(x) #x\nchar s[] = S("%s");' % ('z' * (n + d - 2))))
+                out.append(('strarg-two-%d' % (n + d), '#define S(x) #x\nchar s[] = S(ab %s) S(%s cd) S(q);' % ('y' * (n + d), 'w' * (n + d))))
+                out.append(('strarg-va-%d' % (n + d), '#define S(...) #__VA_ARGS__\nchar s[] = S(a, %s, "b\\"", %s);' % ('y' * (n + d), 'k' * (n // 2))))
     for n in (30, 31, 32, 33, 40, 100):
         out.append(('designators-%d' % n, 'struct S%d { int x; };\n' % 0 + ''.join('struct S%d { struct S%d s; };\n' % (i + 1, i) for i in range(n)) + 'struct S%d v = { %sx = 1 };' % (n, '.s' * n + '.')))
         out.append(('array-designators-%d' % n, 'int a%s = { %s = 1 };' % ('[2]' * n, '[1]' * n)))
@@ -256,6 +264,19 @@ def run(tier):
             inputs.append(('utf8', b'int c = ' + pfx + b"'" + q + b"';", 'stdin'))
         inputs.append(('utf8', b'#define S(x) #x\nchar *s = S(' + q + b');', 'stdin'))
         inputs.append(('utf8', b'int a' + q + b'b;', 'stdin'))
+    # every attribute spelling the parser knows (and unknown ones), with and without arguments, in both syntaxes, at every place an attribute list may stand
+    anames = ['aligned', 'aligned(8)', 'aligned(3)', 'aligned()', 'aligned(8, 9)', 'aligned("x")', 'constructor', 'constructor(1)', 'destructor', 'destructor()', 'packed', 'packed(1)', 'unknown', 'unknown(1, (2), "s")',
+              '__aligned__', '__packed__', 'noreturn', 'deprecated("m")', 'aligned(sizeof(int))', 'aligned(0)', 'aligned(-1)', 'aligned(1 << 40)', 'aligned(gi)']
+    aforms = []
+    for a in anames:
+        aforms += ['__attribute__((%s))' % a, '[[gnu::%s]]' % a, '[[__gnu__::%s]]' % a, '[[%s]]' % a, '[[clang::%s]]' % a, '__attribute__((%s, %s))' % (a, a), '[[gnu::%s, gnu::%s]]' % (a, a)]
+    aplaces = ['int gi; %s int x;', 'int gi; int x %s;', 'int gi; int %s x;', 'int gi; struct %s S { int m; } s;', 'int gi; struct S { int m; } %s s;', 'int gi; struct S { %s int m; };', 'int gi; struct S { int m %s; };',
+               'int gi; enum %s E { A };', 'int gi; enum E { A %s = 1, B %s };', 'int gi; union %s U { int m; };', 'int gi; void f(%s int p);', 'int gi; void f(int p %s);', 'int gi; void f(void) %s;', 'int gi; %s void f(void) { }',
+               'int gi; void f(void) { %s; }', 'int gi; void f(void) { %s int y; }', 'int gi; void f(void) { l: %s ; }', 'int gi; void f(void) { %s return; }', 'int gi; typedef int T %s;', 'int gi; int a[2] %s;', 'int gi; int *%s p;',
+               'int gi; int (*fp)(void) %s;', 'int gi; void f(void) { for (%s int i = 0; i < 1; ++i) ; }', 'int gi; %s;', 'int gi; int x = sizeof(int %s);', 'int gi; void f(void) { switch (gi) { %s case 1: ; } }']
+    for a in aforms:
+        for pl in aplaces:
+            inputs.append(('attr', (pl.replace('%s', a) + '\n').encode(), 'stdin'))
     # witnesses of every repaired or recorded finding of any property (regression inputs for the crash fixes among them)
     for f in common.load_findings():
         wtxt = f.get('witness')
